@@ -11,6 +11,8 @@ package main
 
 import (
 	"fmt"
+	"github.com/TheCacophonyProject/thermal-recorder/headers"
+	yamlv1 "gopkg.in/yaml.v1"
 	"io"
 	"io/ioutil"
 	"path/filepath"
@@ -95,7 +97,30 @@ func TestVerif_ConfigReread(t *testing.T) {
 				c.Inconclusive(err.Error())
 				return
 			}
-			r.serve(pacedFeed(cam, frames2, 0), nil)
+			feed2 := pacedFeed(cam, frames2, 0)
+			bareHeader := prop == "C11"
+			if bareHeader {
+				// the camera daemon was replaced by one that announces neither serial number nor
+				// firmware: files of this connection carry none (not the previous camera's)
+				specs := map[string]interface{}{headers.XResolution: cam.ResX, headers.YResolution: cam.ResY, headers.FrameSize: cam.FrameSize, headers.Model: cam.Model, headers.Brand: cam.Brand, headers.FPS: cam.FPS}
+				hb, err := yamlv1.Marshal(specs)
+				if err != nil {
+					panic(err)
+				}
+				hb = append(hb, '\n')
+				feed2 = func(w io.Writer) error {
+					if _, err := w.Write(hb); err != nil {
+						return err
+					}
+					for _, f := range frames2 {
+						if _, err := w.Write(f.raw(cam)); err != nil {
+							return err
+						}
+					}
+					return nil
+				}
+			}
+			r.serve(feed2, nil)
 			if r.Err != io.EOF {
 				c.Violation("connection-ended-abnormally", "second connection", fmt.Sprintf("handleConn returned %v", r.Err))
 				return
@@ -120,6 +145,17 @@ func TestVerif_ConfigReread(t *testing.T) {
 				if err := yamlv2.Unmarshal([]byte(second[0].Motion), &m); err != nil {
 					c.Violation("header-motion-config", "", "motion config is not YAML: "+err.Error())
 					return
+				}
+				if bareHeader {
+					if first[0].Serial != int(cam.Serial) || first[0].Firmware != cam.Firmware {
+						c.Violation("header-roundtrip", "first connection", fmt.Sprintf("camera serial %d firmware %q, file says serial %d firmware %q", cam.Serial, cam.Firmware, first[0].Serial, first[0].Firmware))
+						return
+					}
+					if second[0].Serial != 0 || (second[0].Firmware != "" && second[0].Firmware != "<unknown>") { // (the file recorder writes "<unknown>" for an empty string)
+						c.Violation("header-roundtrip", "second connection announces neither serial nor firmware", fmt.Sprintf("the second connection's header has no CameraSerial and no Firmware; its recording says serial %d firmware %q (the first connection's camera: serial %d firmware %q)", second[0].Serial, second[0].Firmware, cam.Serial, cam.Firmware))
+						return
+					}
+					c.Count("connections_with_a_header_lacking_serial_and_firmware", 1)
 				}
 				thr, _ := m["triggeredthresh"].(int)
 				if thr < base-8*fps-2 || fmt.Sprint(m["tempthreshmax"]) != "60000" {
